@@ -582,6 +582,11 @@ fn run_threads(ops: &[&str]) -> String {
                             .join(","),
                         "r" => show(dec(parts[2], parts[3]).round(parts[4].parse::<i8>().unwrap_or_else(|_| panic!("bad-input"))))
                             .replace(' ', ","),
+                        // any request of the protocol, executed on this thread under the thread's own default mode
+                        "x" => {
+                            let toks: Vec<&str> = parts[2].split('_').collect();
+                            run("keep", &toks).replace(' ', ",")
+                        }
                         _ => "bad-op".to_string(),
                     });
                     let res = match res {
